@@ -202,8 +202,21 @@ func enumCases(prop string) []*Case {
 	return nil
 }
 
-func runCase(c *Case) *Verdict {
-	v := &Verdict{}
+func runCase(c *Case) (v *Verdict) {
+	v = &Verdict{}
+	defer func() {
+		// The oracles index into what the library returned. If that blows up
+		// (a result of impossible shape), it is the library's result that is
+		// wrong, not the harness that is in trouble: on the unchanged tree no
+		// oracle ever panics.
+		if r := recover(); r != nil {
+			if _, ok := r.(zzsimrt.BudgetExceeded); ok {
+				panic(r)
+			}
+			v.fail("malformed-result", "a result the oracle can examine", fmt.Sprint(r),
+				"the library returned something of a shape no correct implementation returns; the oracle could not examine it: %v", r)
+		}
+	}()
 	switch c.Check {
 	case "genkey":
 		checkGenKey(c, v)
